@@ -1,4 +1,5 @@
 """C16 — images keep values, coordinates and metadata through I/O and metadata edits."""
+import math
 import itertools
 import os
 import shutil
@@ -195,11 +196,57 @@ def _attrs_equal(a, b):
         return False
 
 
+def per_channel_forms(ctx):
+    """per-illumination-channel metadata in every form an image can carry it: ONE labelled channel, 2 and 3 channels, the
+    polarisation table with its axes in either order -- through HDF5 each channel keeps ITS values (compared by label)"""
+    rng = ctx.rng
+    labels_all = ['red', 'green', 'blue']
+    k = 0
+    for nch in (1, 2, 3):
+        labels = labels_all[:nch]
+        for order in (("illumination", "vector"), ("vector", "illumination")):
+            for nvec in (2, 3):
+                k += 1
+                vals = rng.normal(size=(3, 2, nch))
+                pol_rows = np.array([[math.cos(0.3 + j), math.sin(0.3 + j), 0.0][:nvec] for j in range(nch)])
+                pol = xr.DataArray(pol_rows, dims=["illumination", "vector"], coords={"illumination": labels, "vector": ['x', 'y', 'z'][:nvec]}).transpose(*order)
+                wl = {l: 0.4 + 0.1 * j for j, l in enumerate(labels)}
+                nz = {l: 0.01 * (j + 1) for j, l in enumerate(labels)}
+                ctx.tried("per-channel-forms", (nch, order, nvec))
+                info = dict(kind="per-channel-forms", channels=nch, polarisation_axes=list(order), vector_length=nvec)
+                try:
+                    im = data_grid(vals, spacing=0.1, medium_index=1.33, illum_wavelen=wl, noise_sd=nz, extra_dims={'illumination': labels})
+                    im.attrs['illum_polarization'] = pol
+                    path = os.path.join(WORK, "pcf%d.h5" % k)
+                    back = impl_call(lambda: (hp.save(path, im), hp.load(path))[1])
+                    if isinstance(back, tuple) and len(back) == 2 and back[0] == "err":
+                        ctx.violation("C16:h5-per-channel:raises:%s" % back[1], "an image with %d labelled channel(s), per-channel wavelength / noise and a polarisation table with axes %r cannot be saved to HDF5 and loaded again: %s" % (
+                            nch, order, back[1]), info)
+                        continue
+                    bad = []
+                    for l in labels:
+                        bp = back.attrs['illum_polarization']
+                        got_p = np.asarray(bp.sel(illumination=l).transpose('vector').values, dtype=float) if isinstance(bp, xr.DataArray) else None
+                        if got_p is None or not np.array_equal(got_p, pol.sel(illumination=l).values):
+                            bad.append("polarisation of %s: %r -> %r" % (l, pol.sel(illumination=l).values.tolist(), None if got_p is None else got_p.tolist()))
+                        for kk, want in (("illum_wavelen", wl[l]), ("noise_sd", nz[l])):
+                            bv = back.attrs[kk]
+                            gv = float(bv.sel(illumination=l)) if isinstance(bv, xr.DataArray) else float(bv)
+                            if gv != want:
+                                bad.append("%s of %s: %r -> %r" % (kk, l, want, gv))
+                    if bad or not np.array_equal(back.values, im.values):
+                        ctx.violation("C16:h5-per-channel", "HDF5 save/load of an image with %d channel(s) and a polarisation table with axes %r changed per-channel metadata: %s" % (nch, order, "; ".join(bad)[:400]), info)
+                except Exception as ex:
+                    import traceback
+                    ctx.violation("C16:raises:per-channel-forms:%s" % type(ex).__name__, "per-channel forms raised %r" % (ex,), dict(info, tb=traceback.format_exc()[-600:]))
+
+
 def search(ctx):
     rng = ctx.rng
     n = ctx.n(60, 600)
     os.makedirs(WORK, exist_ok=True)
     try:
+        per_channel_forms(ctx)
         for i in range(n):
             try:
                 nx, ny = int(rng.integers(1, 17)), int(rng.integers(1, 17))
